@@ -34,18 +34,21 @@ enum Item {
     /// an annotation statement (attaches to the next statement, wherever that comes from); not part of
     /// the encoding for the model, which is about resolution and order only
     Ann(u32),
+    /// an include below the global scope (`if (true) { include "f<n>.inc"; }`): reported, the file is neither
+    /// read nor analysed, and the includes after it are not disturbed; not part of the model's encoding
+    Blk(u32),
 }
 
 fn enc_items(v: &[Item]) -> String {
     let s: Vec<String> = v
         .iter()
-        .filter(|i| !matches!(i, Item::Ann(_)))
+        .filter(|i| !matches!(i, Item::Ann(_) | Item::Blk(_)))
         .map(|i| match i {
             Item::Mark(t) => format!("m{t}"),
             Item::Abs(d, f) => format!("a{d}:{f}"),
             Item::Rel(f) => format!("r{f}"),
             Item::Std => "s".to_string(),
-            Item::Ann(_) => unreachable!(),
+            Item::Ann(_) | Item::Blk(_) => unreachable!(),
         })
         .collect();
     if s.is_empty() {
@@ -101,6 +104,7 @@ impl World {
                 Item::Mark(t) => s.push_str(&format!("int mk_{t};\nint dup_{t};\nint dup_{t};\nqubit qq_{t};\nU(1, 2, mk_{t}) qq_{t};\n")),
                 Item::Std => s.push_str("include \"stdgates.inc\";\n"),
                 Item::Ann(t) => s.push_str(&format!("@note{t} a b\n")),
+                Item::Blk(f) => s.push_str(&format!("if (true) {{ include \"f{f}.inc\"; }}\n")),
                 Item::Abs(..) | Item::Rel(..) => {
                     let written = match it {
                         Item::Abs(d, f) => self.path(*d, *f).display().to_string(),
@@ -230,6 +234,10 @@ pub fn run(args: &[String]) {
         }
         for f in 0..nfiles {
             if includer[f as usize] == Some(0) {
+                // an include of some file below the global scope, before a top-level include
+                if rng.below(6) == 0 {
+                    main.push(Item::Blk(rng.below(nfiles as u64) as u32));
+                }
                 // an annotation directly before the include: it belongs to the first statement of the file
                 if rng.below(4) == 0 {
                     tag += 1;
